@@ -11,13 +11,23 @@ Reading guide.  A Python set is enumerated in some permutation `σ` of its eleme
                             of the enumerations the legacy code could have produced (refinement).
   * `sites_covered`       : every hash-iteration site the AST scan finds in the tree under test is one
                             of the sites proved order-irrelevant here (a new or edited site breaks this).
+  * B2 deepened         : `common_dom` is proved to return the nearest common dominator on every dominator
+                            tree numbered idom-first (Proof/CommonDom.lean), in particular for the `dom_lt`
+                            model of C18 (any set order) with the `compute_rpo` numbers of C19
+                            (Proof/RpoDom.lean): `place_declarations_order_irrelevant_domtree/_real` have no
+                            algebraic hypotheses; `dom_lt_order_irrelevant` is the corollary of C18 for B3;
+                            `loop_follow_order_irrelevant` is the positive half of A2 (Proof/LoopFollow.lean).
 The whole-pipeline statement ("the text is a function of the bytecode only") is NOT a theorem here:
 the rest of the decompiler is assumed deterministic given deterministic inputs (lists and dicts are
 ordered in CPython); that part is covered by the search leg only.  See manifest/C22.json.
 -/
 import AgVerif.Proof.Order
+import AgVerif.Proof.LoopFollow
+import AgVerif.Proof.RpoDom
 namespace AgVerif.C22
 open AgVerif.Order List
+open AgVerif.Spec (Reach Dominates SDom)
+open AgVerif.CommonDom (NCD Ctx)
 
 /-! ## tie to the code: the generated site list -/
 
@@ -162,15 +172,17 @@ theorem independent_updates_order_irrelevant {α β : Type} [DecidableEq α] (g 
   exact h.foldl_eq' (fun x _ y _ z => upd_comm z x y g) st
 
 /-- B2: `place_declarations` — pop one definition node and fold `common_dom` over the rest.
-    Hypotheses: `common_dom idom` is commutative and associative (it is the least common ancestor in
-    the dominator tree; checked against the real `util.common_dom` by the correspondence). -/
+    Abstract form: any commutative and associative operation.  The hypotheses are discharged for the
+    model of `util.common_dom` in the section "B2 deepened" below
+    (`place_declarations_order_irrelevant_domtree`, `…_real`). -/
 theorem place_declarations_order_irrelevant {α} (op : α → α → α) (hc : ∀ a b, op a b = op b a)
     (ha : ∀ a b c, op (op a b) c = op a (op b c)) {σ₁ σ₂ : List α} (h : σ₁ ~ σ₂) :
     popFold op σ₁ = popFold op σ₂ := by
   unfold popFold
   exact h.foldl_eq' (fun x _ y _ z => popStep_comm op hc ha z x y) none
 
-/-- B3: step 2 of `dom_lt` — a running minimum -/
+/-- B3: step 2 of `dom_lt` — a running minimum over a pure `ev`; the real loop calls `_eval` with path
+    compression: see `dom_lt_order_irrelevant` below for the whole of `dom_lt` -/
 theorem semi_min_order_irrelevant {α} (ev : α → Nat) (s0 : Nat) {σ₁ σ₂ : List α} (h : σ₁ ~ σ₂) :
     semiMin ev s0 σ₁ = semiMin ev s0 σ₂ := by
   unfold semiMin
@@ -188,6 +200,121 @@ theorem prior_def_order_irrelevant (i : Int) {σ₁ σ₂ : List Int} (h : σ₁
 theorem survivors_order_irrelevant {α} (killed : α → Bool) {σ₁ σ₂ : List α} (h : σ₁ ~ σ₂) :
     survivors killed σ₁ ~ survivors killed σ₂ ∧ ∀ x, x ∈ survivors killed σ₁ ↔ x ∈ survivors killed σ₂ :=
   ⟨h.filter _, fun _ => (h.filter _).mem_iff⟩
+
+/-! ## A2, positive half: when `loop_follow` is order-free -/
+
+/-- `loop_follow` on a loop that is neither pre- nor post-tested does not depend on the enumeration of
+    `nodes_in_loop` when every conditional node of the loop has at most one exit (`true` and `false`
+    are not two different nodes outside the loop) and different exits carry different numbers.
+    `loop_follow_order_matters` shows that the first condition cannot be dropped. -/
+theorem loop_follow_order_irrelevant (info : Nat → LNode) (num : Nat → Nat) {σ₁ σ₂ : List Nat}
+    (h : σ₁ ~ σ₂)
+    (h1 : ∀ n ∈ σ₁, (info n).isCond = true →
+      (info n).tru ∈ σ₁ ∨ (info n).fls ∈ σ₁ ∨ (info n).tru = (info n).fls)
+    (hinj : ∀ a ∈ σ₁, ∀ b ∈ σ₁, ∀ x ∈ exitsOf info σ₁ a, ∀ y ∈ exitsOf info σ₁ b, num x = num y → x = y) :
+    loopFollowEndless info num σ₁ = loopFollowEndless info num σ₂ :=
+  loopFollowEndless_perm info num h h1 hinj
+
+/-! ## B2 deepened: `common_dom` on a dominator tree, without algebraic hypotheses
+
+`Ctx g t num` (Proof/CommonDom.lean) packages the hypotheses: `g.WF`, `IsDomTree g t` (t is the textbook
+dominator tree), `t v = some d → num d < num v`, and `num` injective on the reachable nodes.  The two
+theorems below establish it from decidable checks, and for the real `dom_lt` / `compute_rpo` models. -/
+
+/-- the hypotheses hold for every claimed tree and numbering that pass the decidable checks -/
+theorem common_dom_ctx_of_checks (g : Digraph) (t : Nat → Option Nat) (num : Nat → Nat)
+    (hwf : g.wfb = true) (ht : DomRef.checkDomTree g t = true)
+    (hup : ∀ v, v < g.n → ∀ d, t v = some d → num d < num v)
+    (hinj : ∀ u v, u < g.n → v < g.n → Reach g.Edge g.entry u → Reach g.Edge g.entry v →
+      num u = num v → u = v) : Ctx g t num :=
+  CommonDom.ctx_of_checks hwf ht hup hinj
+
+/-- in the reverse post-order of `compute_rpo` (model of C19) a strict dominator of a reachable node is
+    numbered before the node: the walk `pred = idom[pred]` of `common_dom` goes towards smaller numbers -/
+theorem rpo_numbers_dominators_first (g : Digraph) (hwf : g.WF) (rp : Rpo.Result)
+    (h : Rpo.computeRpo g = some rp) (d v : Nat) (hv : Reach g.Edge g.entry v)
+    (hd : SDom g.Edge g.entry d v) : rp.num d < rp.num v :=
+  CommonDom.rpo_dom_num hwf h hv hd
+
+/-- the hypotheses hold for what the decompiler passes to `common_dom`: the dict returned by `dom_lt`
+    (model of C18, for EVERY enumeration order of its sets) and the numbers of `compute_rpo` (C19) -/
+theorem common_dom_ctx_real (g : Digraph) (hwf : g.WF) (o : DomLT.Order) (ho : o.Adm)
+    (r : DomLT.Result) (hr : DomLT.domLTWith o g = some r) (rp : Rpo.Result)
+    (hp : Rpo.computeRpo g = some rp) : Ctx g r.idom rp.num :=
+  CommonDom.ctx_real hwf o ho hr hp
+
+/-- `common_dom(idom, a, b)` terminates without error and returns the nearest common dominator of `a`
+    and `b` (it dominates both, and every common dominator dominates it) -/
+theorem common_dom_is_nearest_common_dominator (g : Digraph) (t : Nat → Option Nat) (num : Nat → Nat)
+    (C : Ctx g t num) (fuel a b : Nat) (ha : Reach g.Edge g.entry a) (hb : Reach g.Edge g.entry b)
+    (hf : num a + num b < fuel) :
+    ∃ c, commonDomG t num fuel a b = some c ∧ NCD g.Edge g.entry c [a, b] :=
+  C.commonDomG_spec fuel a b ha hb hf
+
+/-- hence it is commutative … -/
+theorem common_dom_comm (g : Digraph) (t : Nat → Option Nat) (num : Nat → Nat) (C : Ctx g t num)
+    (fuel a b : Nat) (ha : Reach g.Edge g.entry a) (hb : Reach g.Edge g.entry b)
+    (hf : num a + num b < fuel) : commonDomG t num fuel a b = commonDomG t num fuel b a :=
+  C.commonDomG_comm ha hb hf
+
+/-- … associative … -/
+theorem common_dom_assoc (g : Digraph) (t : Nat → Option Nat) (num : Nat → Nat) (C : Ctx g t num)
+    (fuel a b c : Nat) (ha : Reach g.Edge g.entry a) (hb : Reach g.Edge g.entry b)
+    (hc : Reach g.Edge g.entry c) (fa : 2 * num a < fuel) (fb : 2 * num b < fuel) (fc : 2 * num c < fuel) :
+    (commonDomG t num fuel a b).bind (fun x => commonDomG t num fuel x c)
+      = (commonDomG t num fuel b c).bind (fun y => commonDomG t num fuel a y) :=
+  C.commonDomG_assoc ha hb hc fa fb fc
+
+/-- … and idempotent (this one needs no hypothesis) -/
+theorem common_dom_idem (t : Nat → Option Nat) (num : Nat → Nat) (fuel a : Nat) :
+    commonDomG t num (fuel + 1) a a = some a :=
+  CommonDom.commonDomG_idem t num fuel a
+
+/-- `place_declarations`: for a non-empty set of reachable definition nodes, enumerated in any order,
+    the pop-and-fold terminates without error and returns the nearest common dominator of the set -/
+theorem place_declarations_returns_ncd (g : Digraph) (t : Nat → Option Nat) (num : Nat → Nat)
+    (C : Ctx g t num) (fuel : Nat) (σ : List Nat) (hne : σ ≠ [])
+    (hr : ∀ a ∈ σ, Reach g.Edge g.entry a) (hf : ∀ a ∈ σ, 2 * num a < fuel) :
+    ∃ c, popFoldM (commonDomG t num fuel) σ = some c ∧ NCD g.Edge g.entry c σ :=
+  C.popFoldM_spec fuel σ hne hr hf
+
+/-- B2 without the algebraic hypotheses of `place_declarations_order_irrelevant` -/
+theorem place_declarations_order_irrelevant_domtree (g : Digraph) (t : Nat → Option Nat) (num : Nat → Nat)
+    (C : Ctx g t num) (fuel : Nat) {σ₁ σ₂ : List Nat} (h : σ₁ ~ σ₂)
+    (hr : ∀ a ∈ σ₁, Reach g.Edge g.entry a) (hf : ∀ a ∈ σ₁, 2 * num a < fuel) :
+    popFoldM (commonDomG t num fuel) σ₁ = popFoldM (commonDomG t num fuel) σ₂ :=
+  C.popFoldM_perm fuel h hr hf
+
+/-- end to end over the three models: two runs on the same graph, `dom_lt` enumerating `pred[w]` /
+    `bucket[pw]` in the admissible orders `o₁` / `o₂` and `place_declarations` enumerating `def_nodes`
+    as `σ₁` / `σ₂`, with the numbers of `compute_rpo`, choose the same declaration node -/
+theorem place_declarations_order_irrelevant_real (g : Digraph) (hwf : g.WF) (o₁ o₂ : DomLT.Order)
+    (h₁ : o₁.Adm) (h₂ : o₂.Adm) (r₁ r₂ : DomLT.Result) (hr₁ : DomLT.domLTWith o₁ g = some r₁)
+    (hr₂ : DomLT.domLTWith o₂ g = some r₂) (rp : Rpo.Result) (hp : Rpo.computeRpo g = some rp)
+    (fuel : Nat) {σ₁ σ₂ : List Nat} (h : σ₁ ~ σ₂) (hr : ∀ a ∈ σ₁, Reach g.Edge g.entry a)
+    (hf : ∀ a ∈ σ₁, 2 * rp.num a < fuel) :
+    popFoldM (commonDomG r₁.idom rp.num fuel) σ₁ = popFoldM (commonDomG r₂.idom rp.num fuel) σ₂ :=
+  CommonDom.popFoldM_real hwf o₁ o₂ h₁ h₂ hr₁ hr₂ hp fuel h hr hf
+
+/-! ## B3 deepened: the two set iterations of `dom_lt` -/
+
+/-- `dom_lt` as a whole (line-by-line model with `_eval`/`_compress` and their path compression, C18):
+    for any two admissible enumeration orders of `pred[w]` and `bucket[pw]` both runs terminate without
+    error and return the same dict.  This replaces the purity hypothesis behind
+    `semi_min_order_irrelevant` (its `ev` is a pure function) and the B1 reading of the bucket loop. -/
+theorem dom_lt_order_irrelevant (o₁ o₂ : DomLT.Order) (h₁ : o₁.Adm) (h₂ : o₂.Adm) (g : Digraph)
+    (hwf : g.WF) :
+    ∃ r₁ r₂, DomLT.domLTWith o₁ g = some r₁ ∧ DomLT.domLTWith o₂ g = some r₂ ∧ ∀ v, r₁.dom v = r₂.dom v := by
+  obtain ⟨r₁, e1, a2, a3, a4⟩ := DomLT.domLTWith_correct o₁ h₁ g hwf
+  obtain ⟨r₂, e2, b2, b3, b4⟩ := DomLT.domLTWith_correct o₂ h₂ g hwf
+  refine ⟨r₁, r₂, e1, e2, fun v => ?_⟩
+  by_cases hv : v = g.entry
+  · rw [hv, a2, b2]
+  · by_cases hr : Reach g.Edge g.entry v
+    · obtain ⟨d, hd, hi⟩ := a3 v hv hr
+      obtain ⟨d', hd', hi'⟩ := b3 v hv hr
+      rw [hd, hd', Spec.idom_unique hr hi hi']
+    · rw [a4 v hr, b4 v hr]
 
 /-! ## non-vacuity -/
 
@@ -216,5 +343,50 @@ example : addAll [3, 1, 3, 2, 1] = [3, 1, 2] := by decide
 example : collectFixed [7, 1] [1, 8, 2] 1 2 = [7, 8] := by decide
 example : mergeSuccsFixed (fun n : Nat => n) [2, 3] [3, 4] 1 2 = [3, 4] := by decide
 example : modelled.length = 16 ∧ Gen.OrderSites.sites.length = 16 := by decide
+-- A2 positive: the hypotheses hold for a loop {1,2,3} with the two single-exit conditionals 1 (→10) and
+-- 2 (→11), and the theorem applies to a non-identity permutation
+example : loopFollowEndless (fun n => if n = 1 then ⟨true, 2, 10⟩ else if n = 2 then ⟨true, 11, 3⟩ else ⟨false, 0, 0⟩)
+      (fun n => if n = 10 then 7 else if n = 11 then 5 else n) [1, 2, 3]
+    = loopFollowEndless (fun n => if n = 1 then ⟨true, 2, 10⟩ else if n = 2 then ⟨true, 11, 3⟩ else ⟨false, 0, 0⟩)
+      (fun n => if n = 10 then 7 else if n = 11 then 5 else n) [3, 2, 1] :=
+  loop_follow_order_irrelevant _ _ (by decide) (by decide) (by decide)
+example : loopFollowEndless (fun n => if n = 1 then ⟨true, 2, 10⟩ else if n = 2 then ⟨true, 11, 3⟩ else ⟨false, 0, 0⟩)
+    (fun n => if n = 10 then 7 else if n = 11 then 5 else n) [1, 2, 3] = some 11 := by decide
+
+/-- B2 deepened: the diamond with a tail 0→{1,2}→3→4 plus a back edge 4→1; node ids are NOT the numbers -/
+def diamond : Digraph :=
+  { n := 5, entry := 0, edges := [[1, 2], [3], [3], [4], [1]], catchEdges := [[], [], [], [], []] }
+def diamondIdom : Nat → Option Nat := fun v => [none, some 0, some 0, some 0, some 3].getD v none
+def diamondNum : Nat → Nat := fun v => [1, 3, 2, 4, 5].getD v 0
+
+/-- the hypotheses of the `common_dom` theorems are satisfiable by decidable checks -/
+theorem diamond_ctx : Ctx diamond diamondIdom diamondNum := by
+  refine common_dom_ctx_of_checks diamond diamondIdom diamondNum (by decide) (by decide) ?_ ?_
+  · intro v hv d hd
+    have : v = 0 ∨ v = 1 ∨ v = 2 ∨ v = 3 ∨ v = 4 := by simp only [diamond] at hv; omega
+    rcases this with rfl | rfl | rfl | rfl | rfl <;> simp [diamondIdom] at hd <;> subst hd <;> decide
+  · intro u v hu hv _ _ he
+    have h1 : u = 0 ∨ u = 1 ∨ u = 2 ∨ u = 3 ∨ u = 4 := by simp only [diamond] at hu; omega
+    have h2 : v = 0 ∨ v = 1 ∨ v = 2 ∨ v = 3 ∨ v = 4 := by simp only [diamond] at hv; omega
+    rcases h1 with rfl | rfl | rfl | rfl | rfl <;> rcases h2 with rfl | rfl | rfl | rfl | rfl <;>
+      first | rfl | (simp [diamondNum] at he)
+example : popFoldM (commonDomG diamondIdom diamondNum 20) [4, 1, 2] = some 0 ∧
+    popFoldM (commonDomG diamondIdom diamondNum 20) [2, 4, 1] = some 0 ∧
+    popFoldM (commonDomG diamondIdom diamondNum 20) [4, 3] = some 3 := by decide
+example : popFoldM (commonDomG diamondIdom diamondNum 20) [4, 1, 2]
+    = popFoldM (commonDomG diamondIdom diamondNum 20) [2, 4, 1] := by
+  refine place_declarations_order_irrelevant_domtree diamond _ _ diamond_ctx 20 (by decide) ?_ (by decide)
+  intro a ha
+  have hm : ∀ a ∈ [4, 1, 2], a ∈ DomRef.reachAvoid diamond (fun _ => false) := by decide
+  exact ((DomRef.mem_reachAvoid diamond (Rpo.wf_of_wfb (by decide)) _ a).mp (hm a ha)).reach
+-- the real models on the same graph: `dom_lt` returns that tree and `compute_rpo` those numbers
+example : ((DomLT.domLT diamond).map fun r => (List.range 5).map r.idom)
+    = some [none, some 0, some 0, some 0, some 3] := by decide
+-- errors are explicit: a node without `idom` entry (KeyError / `None.num`) and two nodes with one number
+example : commonDomG (fun _ => none) diamondNum 20 1 2 = none := by decide
+example : commonDomG diamondIdom (fun _ => 7) 20 1 2 = none := by decide
+-- B3 deepened: `C18.revOrder`-style admissible order different from insertion order
+example : (⟨fun _ l => l.reverse, fun _ l => l.reverse⟩ : DomLT.Order).Adm :=
+  fun _ _ _ => ⟨List.mem_reverse, List.mem_reverse⟩
 
 end AgVerif.C22
